@@ -552,3 +552,196 @@ Example C14_phase4_examples :
    nb_parts (fl_lint 4 8) fl_one_doc <> nb_parts (fl_lint 5 9) fl_one_doc /\
    ~ at_edge (firstn 1 fl_one_toks) (skipn 3 fl_one_toks) /\ ~ at_edge (firstn 2 fl_one_toks) (skipn 4 fl_one_toks)).
 Proof. split; [exact aligned_collision_edge_example|exact aligned_collision_one_char_example]. Qed.
+
+Require Import C14Bytes C14BytesProofs C14BytesFit Tables_hashstream C14BytesShape C14BytesWitness.
+
+(* ---------- phase 5: the byte stream of the derived Hash, and SipHash-1-3 over it ----------
+   the byte-level model follows the declarations of the code (table regenerated from /repo on every run by
+   tools/tables/hashstream.py): discriminants = variant indices, payloads, struct fields in order with their types, every
+   type derives Hash, hash_lint_context = DefaultHasher::default() over the derived Hash.
+   THIS THEOREM BREAKS when an enum is reordered / extended in the middle or a hashed struct gains, loses or retypes a field. *)
+Theorem C14_hash_stream_has_the_shape_of_the_code :
+  hs_all_derive_hash = true /\ hs_default_hasher_over_derived_hash = true /\
+  (* LintContext / FatToken / Number / Quote: enc_ctx, enc_ftok, enc_kind (KNumber, KQuote) *)
+  hs_lint_context = [("lint_kind", "LintKind"); ("suggestions", "Vec<Suggestion>"); ("message", "String");
+                     ("priority", "u8"); ("tokens", "Vec<FatToken>")]%string /\
+  hs_fat_token = [("content", "Vec<char>"); ("kind", "TokenKind")]%string /\
+  hs_number = [("value", "OrderedFloat<f64>"); ("suffix", "Option<NumberSuffix>"); ("radix", "u32"); ("precision", "usize")]%string /\
+  hs_quote = [("twin_loc", "Option<usize>")]%string /\
+  (* TokenKind *)
+  variant_at hs_token_kind d_tk_word = Some ("Word", "Option<WordMetadata>")%string /\
+  variant_at hs_token_kind d_tk_punct = Some ("Punctuation", "Punctuation")%string /\
+  variant_at hs_token_kind d_tk_decade = Some ("Decade", ""%string)%string /\
+  variant_at hs_token_kind d_tk_number = Some ("Number", "Number")%string /\
+  variant_at hs_token_kind d_tk_space = Some ("Space", "usize")%string /\
+  variant_at hs_token_kind d_tk_newline = Some ("Newline", "usize")%string /\
+  variant_at hs_token_kind d_tk_email = Some ("EmailAddress", ""%string)%string /\
+  variant_at hs_token_kind d_tk_url = Some ("Url", ""%string)%string /\
+  variant_at hs_token_kind d_tk_hostname = Some ("Hostname", ""%string)%string /\
+  variant_at hs_token_kind d_tk_unlintable = Some ("Unlintable", ""%string)%string /\
+  variant_at hs_token_kind d_tk_parbreak = Some ("ParagraphBreak", ""%string)%string /\
+  variant_at hs_token_kind d_tk_regexish = Some ("Regexish", ""%string)%string /\
+  List.length hs_token_kind = 12 /\
+  (* Punctuation: Quote(Quote) and Currency(Currency) carry data, nothing else does; indices below 64 (enc_punct) *)
+  variant_at hs_punctuation d_p_quote = Some ("Quote", "Quote")%string /\
+  variant_at hs_punctuation d_p_currency = Some ("Currency", "Currency")%string /\
+  fieldless_but hs_punctuation ["Quote"; "Currency"]%string = true /\
+  List.length hs_punctuation < 64 /\
+  fieldless_but hs_currency [] = true /\ fieldless_but hs_number_suffix [] = true /\ fieldless_but hs_lint_kind [] = true /\
+  (* Suggestion *)
+  variant_at hs_suggestion d_s_replace = Some ("ReplaceWith", "Vec<char>")%string /\
+  variant_at hs_suggestion d_s_insert = Some ("InsertAfter", "Vec<char>")%string /\
+  variant_at hs_suggestion d_s_remove = Some ("Remove", ""%string)%string /\
+  List.length hs_suggestion = 3.
+Proof. exact bytes_model_has_the_shape_of_the_code. Qed.
+Check C14_hash_stream_has_the_shape_of_the_code :
+  hs_all_derive_hash = true /\ hs_default_hasher_over_derived_hash = true /\
+  (* LintContext / FatToken / Number / Quote: enc_ctx, enc_ftok, enc_kind (KNumber, KQuote) *)
+  hs_lint_context = [("lint_kind", "LintKind"); ("suggestions", "Vec<Suggestion>"); ("message", "String");
+                     ("priority", "u8"); ("tokens", "Vec<FatToken>")]%string /\
+  hs_fat_token = [("content", "Vec<char>"); ("kind", "TokenKind")]%string /\
+  hs_number = [("value", "OrderedFloat<f64>"); ("suffix", "Option<NumberSuffix>"); ("radix", "u32"); ("precision", "usize")]%string /\
+  hs_quote = [("twin_loc", "Option<usize>")]%string /\
+  (* TokenKind *)
+  variant_at hs_token_kind d_tk_word = Some ("Word", "Option<WordMetadata>")%string /\
+  variant_at hs_token_kind d_tk_punct = Some ("Punctuation", "Punctuation")%string /\
+  variant_at hs_token_kind d_tk_decade = Some ("Decade", ""%string)%string /\
+  variant_at hs_token_kind d_tk_number = Some ("Number", "Number")%string /\
+  variant_at hs_token_kind d_tk_space = Some ("Space", "usize")%string /\
+  variant_at hs_token_kind d_tk_newline = Some ("Newline", "usize")%string /\
+  variant_at hs_token_kind d_tk_email = Some ("EmailAddress", ""%string)%string /\
+  variant_at hs_token_kind d_tk_url = Some ("Url", ""%string)%string /\
+  variant_at hs_token_kind d_tk_hostname = Some ("Hostname", ""%string)%string /\
+  variant_at hs_token_kind d_tk_unlintable = Some ("Unlintable", ""%string)%string /\
+  variant_at hs_token_kind d_tk_parbreak = Some ("ParagraphBreak", ""%string)%string /\
+  variant_at hs_token_kind d_tk_regexish = Some ("Regexish", ""%string)%string /\
+  List.length hs_token_kind = 12 /\
+  (* Punctuation: Quote(Quote) and Currency(Currency) carry data, nothing else does; indices below 64 (enc_punct) *)
+  variant_at hs_punctuation d_p_quote = Some ("Quote", "Quote")%string /\
+  variant_at hs_punctuation d_p_currency = Some ("Currency", "Currency")%string /\
+  fieldless_but hs_punctuation ["Quote"; "Currency"]%string = true /\
+  List.length hs_punctuation < 64 /\
+  fieldless_but hs_currency [] = true /\ fieldless_but hs_number_suffix [] = true /\ fieldless_but hs_lint_kind [] = true /\
+  (* Suggestion *)
+  variant_at hs_suggestion d_s_replace = Some ("ReplaceWith", "Vec<char>")%string /\
+  variant_at hs_suggestion d_s_insert = Some ("InsertAfter", "Vec<char>")%string /\
+  variant_at hs_suggestion d_s_remove = Some ("Remove", ""%string)%string /\
+  List.length hs_suggestion = 3.
+Print Assumptions C14_hash_stream_has_the_shape_of_the_code.
+
+(* the stream is PREFIX-FREE on contexts whose values fit their Rust types: no stream is a proper prefix of another, and
+   equal streams come from equal contexts (length prefixes, fixed-width little-endian integers, UTF-8 is a prefix code and
+   the 0xFF terminator is not a UTF-8 byte, discriminants separate the variants) *)
+Theorem C14_hash_stream_prefix_free :
+  forall c c' r r', ctx_wfb c = true -> ctx_wfb c' = true ->
+  (enc_ctx c ++ r = enc_ctx c' ++ r')%list -> c = c' /\ r = r'.
+Proof. exact enc_ctx_pf. Qed.
+Check C14_hash_stream_prefix_free :
+  forall c c' r r', ctx_wfb c = true -> ctx_wfb c' = true ->
+  (enc_ctx c ++ r = enc_ctx c' ++ r')%list -> c = c' /\ r = r'.
+Print Assumptions C14_hash_stream_prefix_free.
+
+Theorem C14_hash_stream_injective :
+  forall c c', ctx_wfb c = true -> ctx_wfb c' = true -> enc_ctx c = enc_ctx c' -> c = c'.
+Proof. exact enc_ctx_injective. Qed.
+Check C14_hash_stream_injective :
+  forall c c', ctx_wfb c = true -> ctx_wfb c' = true -> enc_ctx c = enc_ctx c' -> c = c'.
+Print Assumptions C14_hash_stream_injective.
+
+(* `ctx_wfb` is not a premise about contexts: every context from_lint builds from a lint and a document whose values fit
+   their Rust types has it; in particular every kind in a context is blanked (the unmodelled WordMetadata never reaches
+   the stream) *)
+Theorem C14_context_fits :
+  forall l d c, context l d = Ok c -> lint_fitsb l = true -> doc_fitsb d = true -> ctx_wfb c = true.
+Proof. exact context_fits. Qed.
+Check C14_context_fits :
+  forall l d c, context l d = Ok c -> lint_fitsb l = true -> doc_fitsb d = true -> ctx_wfb c = true.
+Print Assumptions C14_context_fits.
+
+Theorem C14_context_kinds_blanked :
+  forall l d c, context l d = Ok c -> Forall (fun f => blank_kind (fst f) = fst f) (c_toks c).
+Proof. exact context_kinds_blanked. Qed.
+Check C14_context_kinds_blanked :
+  forall l d c, context l d = Ok c -> Forall (fun f => blank_kind (fst f) = fst f) (c_toks c).
+Print Assumptions C14_context_kinds_blanked.
+
+(* hence hash_injective_on — the premise of C14_only / C14_ignored_iff / C14_flat_failure_iff — reduces to: the hasher
+   does not collide on the BYTE STRINGS of the contexts in play; and nothing is lost (the converse) *)
+Theorem C14_hash_reduces_to_bytes :
+  forall (h : bytes -> N) cs, Forall (fun c => ctx_wfb c = true) cs ->
+  bytes_injective_on h (map enc_ctx cs) -> hash_injective_on (fun c => h (enc_ctx c)) cs.
+Proof. exact hash_reduces_to_bytes. Qed.
+Check C14_hash_reduces_to_bytes :
+  forall (h : bytes -> N) cs, Forall (fun c => ctx_wfb c = true) cs ->
+  bytes_injective_on h (map enc_ctx cs) -> hash_injective_on (fun c => h (enc_ctx c)) cs.
+Print Assumptions C14_hash_reduces_to_bytes.
+
+Theorem C14_bytes_reduce_to_hash :
+  forall (h : bytes -> N) cs,
+  hash_injective_on (fun c => h (enc_ctx c)) cs -> bytes_injective_on h (map enc_ctx cs).
+Proof. exact bytes_reduce_to_hash. Qed.
+Check C14_bytes_reduce_to_hash :
+  forall (h : bytes -> N) cs,
+  hash_injective_on (fun c => h (enc_ctx c)) cs -> bytes_injective_on h (map enc_ctx cs).
+Print Assumptions C14_bytes_reduce_to_hash.
+
+(* for the hash IgnoredLints REALLY stores (stored_hash = SipHash-1-3 with keys (0,0) over enc_ctx — compared with
+   DefaultHasher on every case of stream B): ignored <=> the context is an ignored one, and "only that lint", under the
+   one remaining hypothesis that SipHash-1-3 does not collide on the byte strings of the contexts in play *)
+Theorem C14_ignored_iff_stored_hash :
+  forall hist cs l d c s',
+  contexts_of context hist cs -> ignore_all context stored_hash [] hist = Ok s' ->
+  context l d = Ok c -> Forall (fun c => ctx_wfb c = true) (c :: cs) ->
+  bytes_injective_on default_hasher (map enc_ctx (c :: cs)) ->
+  (is_ignored context stored_hash s' l d = Ok true <-> In c cs).
+Proof. exact ignored_iff_sip. Qed.
+Check C14_ignored_iff_stored_hash :
+  forall hist cs l d c s',
+  contexts_of context hist cs -> ignore_all context stored_hash [] hist = Ok s' ->
+  context l d = Ok c -> Forall (fun c => ctx_wfb c = true) (c :: cs) ->
+  bytes_injective_on default_hasher (map enc_ctx (c :: cs)) ->
+  (is_ignored context stored_hash s' l d = Ok true <-> In c cs).
+Print Assumptions C14_ignored_iff_stored_hash.
+
+Theorem C14_only_stored_hash :
+  forall hist cs l d c ls s' ls',
+  contexts_of context hist cs -> ignore_all context stored_hash [] hist = Ok s' ->
+  (forall l0, In l0 ls -> exists c0, context l0 d = Ok c0) ->
+  remove_ignored context stored_hash s' ls d = Ok ls' ->
+  In l ls -> context l d = Ok c ->
+  ~ In c cs ->
+  Forall (fun ld => lint_fitsb (fst ld) = true /\ doc_fitsb (snd ld) = true) ((l, d) :: hist) ->
+  bytes_injective_on default_hasher (map enc_ctx (c :: cs)) ->
+  In l ls'.
+Proof. exact only_sip_inputs. Qed.
+Check C14_only_stored_hash :
+  forall hist cs l d c ls s' ls',
+  contexts_of context hist cs -> ignore_all context stored_hash [] hist = Ok s' ->
+  (forall l0, In l0 ls -> exists c0, context l0 d = Ok c0) ->
+  remove_ignored context stored_hash s' ls d = Ok ls' ->
+  In l ls -> context l d = Ok c ->
+  ~ In c cs ->
+  Forall (fun ld => lint_fitsb (fst ld) = true /\ doc_fitsb (snd ld) = true) ((l, d) :: hist) ->
+  bytes_injective_on default_hasher (map enc_ctx (c :: cs)) ->
+  In l ls'.
+Print Assumptions C14_only_stored_hash.
+
+(* non-vacuity, on data RECORDED FROM THE IMPLEMENTATION (Proofs/C14BytesWitness.v; the same inputs run on every check):
+   the document `1st 22nd 3rd 4th 0.250 1e3 ¥7 ...` fits, two lints over it (a Punctuation lint with message `é`, suggestions
+   InsertAfter [U+10FFFF; U+0000] / InsertAfter "ab", priority 127, over number tokens with suffixes; a Formatting lint over
+   the currency sign ¥ and the number behind it) fit; the model's stream is byte for byte the recorded one and the model's
+   SipHash-1-3 is the u64 the implementation stored; the two contexts differ and so do their streams and hashes *)
+Example C14_hash_stream_example :
+  doc_fitsb bw_doc = true /\ lint_fitsb bw_lint1 = true /\ lint_fitsb bw_lint2 = true /\
+  run_bytes bw_lint1 bw_doc = Some (true, bw_stream1, le64 bw_hash1) /\
+  run_bytes bw_lint2 bw_doc = Some (true, bw_stream2, le64 bw_hash2) /\
+  bw_stream1 <> bw_stream2 /\ bw_hash1 <> bw_hash2 /\
+  bytes_injective_on default_hasher [bw_stream1; bw_stream2].
+Proof.
+  assert (default_hasher bw_stream1 = bw_hash1) as H1 by (vm_compute; reflexivity).
+  assert (default_hasher bw_stream2 = bw_hash2) as H2 by (vm_compute; reflexivity).
+  assert (bw_hash1 <> bw_hash2) as Hd by (vm_compute; discriminate).
+  repeat split; try (vm_compute; reflexivity); try exact Hd.
+  - intros E. apply Hd. rewrite <- H1, <- H2, E. reflexivity.
+  - intros a b [<-|[<-|[]]] [<-|[<-|[]]] E; try reflexivity; exfalso; rewrite ?H1, ?H2 in E; [apply Hd; exact E|apply Hd; symmetry; exact E].
+Qed.
